@@ -60,8 +60,9 @@ TRUSTED = [
     'instance (FS, series for atan) is only compared with the implementation '
     'at 1e-9 scaled; decimal -> binary64 of number tokens is reproduced '
     'exactly for <= 15 digits',
-    'the SURF/VOLU text written by the converter is read back by '
-    'impl.T4File/t4eval (harness); str(float) rendering is not modelled',
+    'the SURF/VOLU/TRANSFORM text written by the converter is read back by '
+    'impl.T4File/t4eval (harness), one card per deck and several cards per '
+    'deck (with TR numbers); str(float) rendering is not modelled',
     'harness: generators, mcnpref, t4eval, geomcheck, PEG shim replacing TatSu',
 ]
 ASSUMPTIONS = [
